@@ -94,6 +94,11 @@ def gen_case(rng, dec, this_year):
         u = rng.choice(units)
         return lang, f"{numlit(rng, dec)} {u}", "unit"
     n = rng.randint(0, 2 ** rng.randint(1, 60))
+    if rng.random() < 0.2:
+        # a negative result with a base tag (printed as a two's complement pattern): conversion of a negative number, or a
+        # difference of based literals
+        m_ = rng.choice([rng.randint(1, 2 ** 31), rng.randint(2 ** 31, 2 ** 40), rng.randint(1, 1000)])
+        return lang, rng.choice([f"-{m_} to hex", f"-{m_} to binary", f"0x0 - {hex(m_)}", f"{hex(rng.randint(0, 99))} - {hex(m_)}", f"0o7 - {oct(m_)}"]), "based"
     if rng.random() < 0.25:
         # printed hexadecimal digits that spell another literal prefix inside: 0B0 / 0B1 (binary), 0E.., 0D..
         hx = lambda k: "".join(rng.choice("0123456789abcdef") for _ in range(k))
